@@ -172,14 +172,21 @@ class Folder:
             if r in ("Fn", "AssocFn"):
                 return ("fn", e["def"])
             if r == "SelfCtor":
-                raise FoldError("SelfCtor")
+                return Enum(_strip_ctor(e["def"]))
             raise FoldError(f"path res {r} {e.get('def')}")
         if k == "tup":
             return tuple(self.eval(x, env, depth + 1) for x in e["elems"])
         if k == "array":
             return [self.eval(x, env, depth + 1) for x in e["elems"]]
         if k == "struct":
-            fields = {n: self.eval(v, env, depth + 1) for n, v in e["fields"]}
+            fields = {}
+            for n, v in e["fields"]:
+                try:
+                    fields[n] = self.eval(v, env, depth + 1)
+                except FoldError as ex:
+                    if not getattr(self, "lenient", False):
+                        raise
+                    fields[n] = Unknown(str(ex))
             if e.get("base") not in (None, "default-fields"):
                 base = self.eval(e["base"], env, depth + 1)
                 if isinstance(base, Enum) and base.fields:
@@ -198,7 +205,7 @@ class Folder:
                 if r == "Ctor":
                     return Enum(_strip_ctor(f["def"]), args)
                 if r == "SelfCtor":
-                    raise FoldError("SelfCtor call")
+                    return Enum(_strip_ctor(f["def"]), args)
                 if r in ("Fn", "AssocFn"):
                     return self.call_path(f["def"], args, depth)
             raise FoldError(f"call of {f.get('def') or f['e']}")
@@ -270,6 +277,26 @@ class Folder:
                         continue
                     return self.eval(arm["body"], env2, depth + 1)
             raise FoldError("no arm matched")
+        if k == "repeat":
+            v = self.eval(e["a"], env, depth + 1)
+            return _Repeat(v)
+        if k == "assign":
+            v = self.eval(e["b"], env, depth + 1)
+            lhs = e["a"]
+            if lhs["e"] == "index":
+                arr = self.eval(lhs["a"], env, depth + 1)
+                i = self.eval(lhs["i"], env, depth + 1)
+                if isinstance(arr, _Repeat):
+                    arr.set(i, v)
+                    return ()
+                if isinstance(arr, list):
+                    arr[i] = v
+                    return ()
+            if lhs["e"] == "path" and lhs.get("res") == "Local":
+                env[lhs["id"]] = v
+                env[("name", lhs["name"])] = v
+                return ()
+            raise FoldError("assign target")
         if k == "ret":
             raise _Return(self.eval(e["val"], env, depth + 1) if e["val"] else ())
         if k == "field":
@@ -336,10 +363,42 @@ class Folder:
                 return recv
         if isinstance(recv, Enum) and name in ("clone", "into", "to_owned"):
             return recv
+        if isinstance(recv, str):
+            if name == "as_bytes":
+                return list(recv.encode())
+            if name == "len":
+                return len(recv.encode())
+        if isinstance(recv, list):
+            if name == "len":
+                return len(recv)
+            if name in ("as_slice", "as_ref", "iter"):
+                return recv
         # workspace method
         if d and not d.startswith(("std::", "core::", "alloc::")):
             return self.call_fn(d, [recv] + args, depth)
         raise FoldError(f"method {name} on {type(recv).__name__} ({d})")
+
+
+class Unknown:
+    """A sub-expression the folder could not evaluate (lenient mode)."""
+    def __init__(self, why):
+        self.why = why
+
+    def __repr__(self):
+        return f"?({self.why})"
+
+
+class _Repeat:
+    """[v; N] with sparse overrides"""
+    def __init__(self, default):
+        self.default = default
+        self.items = {}
+
+    def set(self, i, v):
+        self.items[i] = v
+
+    def __getitem__(self, i):
+        return self.items.get(i, self.default)
 
 
 class _Return(Exception):
